@@ -85,6 +85,7 @@ Proof.
 Qed.
 
 Section Round.
+  Variable V : prop_variant.
   Variable bm : bool.
   Variable r : string.
   (* the argument types of the call sites: scalars on which IsMatchType is equality of tag and class *)
@@ -101,7 +102,7 @@ Section Round.
   Proof. intros ->. rewrite String.eqb_refl. cbn [negb]. rewrite Bool.andb_false_r. reflexivity. Qed.
 
   Lemma step_ok seen e a : entry_ok seen e -> Forall dom seen -> dom a ->
-    exists e', snd (propagate bm r (Some e) a) = Some e' /\
+    exists e', snd (propagate V bm r (Some e) a) = Some e' /\
                entry_ok (if existsb (fun s => same_kind s a) seen then seen else seen ++ [a]) e'.
   Proof.
     destruct e as [dt dr]. intros [Hr [Hb [Hu [Hi [Hd [Hk [Hs [Hn Hne]]]]]]]] Hseen Ha. cbn [fst snd] in *.
@@ -154,13 +155,13 @@ Section Round.
   Qed.
 
   Lemma run_ok rest : forall seen e, entry_ok seen e -> Forall dom seen -> Forall dom rest ->
-    exists e', round_run bm r (Some e) rest = Some e' /\ entry_ok (seen ++ distinct_kinds seen rest) e'.
+    exists e', round_run V bm r (Some e) rest = Some e' /\ entry_ok (seen ++ distinct_kinds seen rest) e'.
   Proof.
     induction rest as [|a rest IH]; intros seen e He Hs Hr; cbn [distinct_kinds].
     - exists e. rewrite app_nil_r. split; [reflexivity | exact He].
     - inversion Hr as [|? ? Ha Hr']; subst.
       destruct (step_ok seen e a He Hs Ha) as [e1 [E1 H1]].
-      unfold round_run. cbn [fold_left]. rewrite E1. fold (round_run bm r (Some e1) rest).
+      unfold round_run. cbn [fold_left]. rewrite E1. fold (round_run V bm r (Some e1) rest).
       destruct (existsb (fun s => same_kind s a) seen).
       + apply IH; assumption.
       + destruct (IH (seen ++ [a]) e1 H1) as [e' [E' H']]; [apply Forall_app; split; [exact Hs | constructor; [exact Ha | constructor]] | exact Hr' |].
@@ -170,7 +171,7 @@ Section Round.
   (* C15: starting from a parameter nothing is known about, the call sites of one round leave it with exactly the
      distinct types of their arguments, in order of first occurrence *)
   Theorem round_from_fresh args : args <> [] -> Forall dom args ->
-    exists dt, round_run bm r None args = Some (dt, r) /\ map kind (variants_or_self dt) = map kind (distinct_kinds [] args).
+    exists dt, round_run V bm r None args = Some (dt, r) /\ map kind (variants_or_self dt) = map kind (distinct_kinds [] args).
   Proof.
     destruct args as [|a rest]; [congruence|]. intros _ H. inversion H as [|? ? Ha Hr]; subst.
     destruct (arg_ok_parts a (dom_ok a Ha)) as [Sa [Ua [Ba Da]]].
@@ -191,10 +192,11 @@ Section Round.
   Qed.
 End Round.
 
-(* the first call site of a NEW round replaces what the previous round collected (and is then checked against the old
-   type): what earlier rounds knew is lost unless the new round reaches every call site again *)
+(* the first call site of a NEW round replaces what the previous round collected; the pinned code then checked it against
+   the old type (a false `type mismatch` that also ended the walk over the remaining parameters), the repaired code accepts it *)
 Lemma new_round_replaces :
   let I := set_inf (Ty INT "Integer" VInt64 None "" "" "" [] no_flags "" "" "" [] [] []) true in
   let S := Ty STRING "String" (VStr "s") None "" "" "" [] no_flags "" "" "" [] [] [] in
-  propagate false "check" (Some (I, "inference")) S = (false, Some (set_inf S true, "check")).
-Proof. vm_compute. reflexivity. Qed.
+  propagate pinned_prop false "check" (Some (I, "inference")) S = (false, Some (set_inf S true, "check")) /\
+  propagate fixed_prop false "check" (Some (I, "inference")) S = (true, Some (set_inf S true, "check")).
+Proof. vm_compute. split; reflexivity. Qed.
